@@ -2,7 +2,10 @@ package main
 
 import (
 	"encoding/xml"
+	"fmt"
+	"regexp"
 
+	"mellium.im/xmpp"
 	"mellium.im/xmpp/commands"
 	"mellium.im/xmpp/disco"
 	"mellium.im/xmpp/disco/info"
@@ -129,5 +132,98 @@ func extraTypes() []*typeDesc {
 		},
 		seeds: []string{`<note type='info'>Service 'httpd' has been configured.</note>`, `<note type='bogus'/>`},
 	})
+
+	// ---- internal/saslerr through the verif aliases of the root package (level B) ----
+	add(&typeDesc{name: "saslerr.Error", codec: "saslerr_c", level: "B", both: true,
+		gen: func(r *hx.Rand) interface{} {
+			return xmpp.VerifSASLError{Condition: genSASLCond(r), Lang: []string{"", "en", "de-CH", genText(r)}[r.Intn(4)], Text: genMaybe(r, genText)}
+		},
+		tr:    func(v interface{}) xml.TokenReader { return v.(xmpp.VerifSASLError).TokenReader() },
+		write: func(v interface{}, e *xml.Encoder) error { _, err := v.(xmpp.VerifSASLError).WriteXML(e); return err },
+		marsh: marshalV, fresh: func() interface{} { return &xmpp.VerifSASLError{} },
+		proj: func(p interface{}) interface{} {
+			var c xmpp.VerifSASLError
+			switch x := p.(type) {
+			case xmpp.VerifSASLError:
+				c = x
+			case *xmpp.VerifSASLError:
+				c = *x
+			}
+			return pSASLErr{uint64(c.Condition), c.Lang, c.Text}
+		},
+		// an undefined condition is not written; the language exists only with a text
+		norm: func(p interface{}) interface{} {
+			e := p.(pSASLErr)
+			if e.Cond < 1 || e.Cond > 11 {
+				e.Cond = 0
+			}
+			if e.Text == "" {
+				e.Lang = ""
+			}
+			return e
+		},
+		direct: func(v interface{}, raw []*Tree) (string, string) {
+			// RFC 6120 6.5: one <failure/> in the SASL name space, at most one condition child, whatever the value
+			if len(raw) != 1 || raw[0].Name.Local != "failure" || raw[0].Name.Space != "urn:ietf:params:xml:ns:xmpp-sasl" {
+				return "tokenreader/failure-shape", "not one {urn:ietf:params:xml:ns:xmpp-sasl}failure element"
+			}
+			n := 0
+			for _, k := range raw[0].Kids {
+				if k.Kind == 0 && k.Name.Local != "text" {
+					n++
+					if !saslNameRE.MatchString(k.Name.Local) {
+						return "tokenreader/condition-name", fmt.Sprintf("condition element %q is not a name (condition value %d)", k.Name.Local, v.(xmpp.VerifSASLError).Condition)
+					}
+				}
+			}
+			if c := v.(xmpp.VerifSASLError).Condition; (c >= 1 && c <= 11) != (n == 1) || n > 1 {
+				return "tokenreader/condition-count", fmt.Sprintf("%d condition elements for condition value %d", n, c)
+			}
+			return "", ""
+		},
+		seeds: []string{`<failure xmlns='urn:ietf:params:xml:ns:xmpp-sasl'><not-authorized/><text xml:lang='en'>Password incorrect</text></failure>`,
+			`<failure xmlns='urn:ietf:params:xml:ns:xmpp-sasl'><text>a</text><aborted/><text xml:lang='de'>b</text><bogus/><none/></failure>`,
+			`<failure xmlns='urn:ietf:params:xml:ns:xmpp-sasl'/>`},
+	})
+	add(&typeDesc{name: "saslerr.Condition", codec: "scond_c", level: "B", both: true,
+		gen: func(r *hx.Rand) interface{} { return genSASLCond(r) },
+		tr:  func(v interface{}) xml.TokenReader { return v.(xmpp.VerifSASLCondition).TokenReader() },
+		write: func(v interface{}, e *xml.Encoder) error {
+			_, err := v.(xmpp.VerifSASLCondition).WriteXML(e)
+			return err
+		},
+		marsh: marshalV, fresh: func() interface{} { c := xmpp.VerifSASLCondition(0); return &c },
+		proj: func(p interface{}) interface{} {
+			switch x := p.(type) {
+			case xmpp.VerifSASLCondition:
+				return uint64(x)
+			case *xmpp.VerifSASLCondition:
+				return uint64(*x)
+			}
+			return nil
+		},
+		seeds: []string{`<aborted xmlns='urn:ietf:params:xml:ns:xmpp-sasl'/>`, `<temporary-auth-failure/>`, `<none/>`, `<Condition/>`},
+	})
 	return ts
+}
+
+var saslNameRE = regexp.MustCompile(`^[a-z][a-z-]*$`)
+
+type pSASLErr struct {
+	Cond       uint64
+	Lang, Text string
+}
+
+func (pSASLErr) CoqCtor() string { return "mksaslerr" }
+
+// genSASLCond: every defined condition and the boundaries of the table: 0
+// (ConditionNone), the last defined one, one past it, and the ends of uint16.
+func genSASLCond(r *hx.Rand) xmpp.VerifSASLCondition {
+	switch r.Intn(4) {
+	case 0:
+		return xmpp.VerifSASLCondition([]int{0, 1, 11, 12, 13, 255, 256, 65534, 65535}[r.Intn(9)])
+	case 1:
+		return xmpp.VerifSASLCondition(r.Intn(65536))
+	}
+	return xmpp.VerifSASLCondition(r.Intn(14))
 }
